@@ -169,7 +169,10 @@ def recheck_after_failure(ctx, case, reader, stream, disk, sreqs, reqs, subject,
     """A sector request that cannot be served (it starts in the last sector and runs far past the end) is issued on the same
     object; whether it raises or returns short, the requests answered before must be answered identically afterwards."""
     last = max(0, (disk.size + sector_size - 1) // sector_size - 1)
-    for start, count in ((last, 70000), (max(0, last - 3), 20000)):
+    failing = [(last, 70000), (max(0, last - 3), 20000)]
+    if disk.size <= (64 << 20):
+        failing.append((0, last + 1 + 5000))  # everything, and on past the end
+    for start, count in failing:
         try:
             reader(start, count)
         except Exception:
